@@ -369,7 +369,9 @@ def run_creation(spec, tier, mg):
     protos = [np.array([[1.0, 2.0], [3.0, 4.0]], dtype=np.float32), np.array([1, 2, 3]), np.array(2.0), mg.tensor([[1.0, 2.0]]), [1.0, 2.0], np.ones((2, 3)).T]
     for f in ("zeros_like", "ones_like", "empty_like"):
         for pr in protos:
-            for kw in ({}, {"dtype": np.float64}, {"shape": (3,)}, {"dtype": np.int8, "shape": (2, 1)}):
+            # (valid option values that are falsy - (), 0, [] - are included on purpose)
+            for kw in ({}, {"dtype": np.float64}, {"shape": (3,)}, {"dtype": np.int8, "shape": (2, 1)}, {"shape": ()}, {"shape": 0}, {"shape": []},
+                       {"shape": (0,)}, {"shape": 2}, {"shape": (0, 3), "dtype": np.float32}):
                 n += 1
                 raw = pr.data if isinstance(pr, mg.Tensor) else pr
                 try:
@@ -384,8 +386,8 @@ def run_creation(spec, tier, mg):
                 if r.shape != w.shape or r.dtype != w.dtype or (f != "empty_like" and not np.array_equal(r.data, w)):
                     findings.append("mg.%s(%s, %s): %s/%s vs numpy %s/%s" % (f, type(pr).__name__, kw, r.shape, r.dtype, w.shape, w.dtype))
     for pr in protos:
-        for fill in (3, 1.5):
-            for kw in ({}, {"dtype": np.float32}, {"shape": (2,)}):
+        for fill in (3, 1.5, 0, 0.0, False):
+            for kw in ({}, {"dtype": np.float32}, {"shape": (2,)}, {"shape": ()}, {"shape": 0}, {"shape": []}, {"shape": (0, 2)}):
                 n += 1
                 raw = pr.data if isinstance(pr, mg.Tensor) else pr
                 try:
@@ -395,7 +397,7 @@ def run_creation(spec, tier, mg):
                 r = mg.full_like(pr, fill, **kw)
                 if r.shape != w.shape or r.dtype != w.dtype or not np.array_equal(r.data, w):
                     findings.append("mg.full_like(%s, %s, %s): %s/%s vs numpy %s/%s" % (type(pr).__name__, fill, kw, r.shape, r.dtype, w.shape, w.dtype))
-    ar_args = [(5,), (2, 7), (1, 10, 3), (0.0, 1.0, 0.25), (5.0,), (3, 0), (10, 2, -3), (0, 1, 0.3)]
+    ar_args = [(5,), (2, 7), (1, 10, 3), (0.0, 1.0, 0.25), (5.0,), (3, 0), (10, 2, -3), (0, 1, 0.3), (0,), (0, 0), (0.0,), (0, 5, 1)]
     for a in ar_args:
         for dt in (None, np.float32, np.int64):
             n += 1
